@@ -49,6 +49,15 @@ def install(M, knobs, report):
     def bump(k, n=1):
         stats[k] = stats.get(k, 0) + n
 
+    # ------------------------------------------------------------------ fault: the k-th feather write of the whole run fails
+    fault = knobs.get("fault")
+    if fault:
+        from sim import diskseam
+        diskseam.install()
+        diskseam.begin_run()
+        diskseam.begin_op([dict(fault)])
+        report["fault_planned"] = dict(fault)
+
     # ------------------------------------------------------------------ knobs: make the miss paths run
     config.MAX_ROWS = knobs.get("max_rows", 400000)
     for name in ("LRU_CACHE_CAPACITY", "BUNDLE_CACHE_CAPACITY", "GIR_CACHE_CAPACITY", "MIN_CACHE_CAPACITY"):
@@ -277,6 +286,22 @@ def install(M, knobs, report):
             report["stats"]["restore_skipped"] = 1
             return report
         old = state["loaders"][-1]
+        damaged = set()      # base names of files hit by the injected write fault
+        if fault:
+            from sim import diskseam
+            report["fault_fired"] = [list(f) for f in diskseam.STATE["fired"]]
+            damaged = {f[1] for f in diskseam.STATE["fired"]}
+            diskseam.STATE["plan"] = []
+
+        def at_risk(sub):
+            """a sub-loader whose bundle or index file was hit may have lost or damaged items (never silently: see the parent)"""
+            if not damaged:
+                return False
+            for attr in ("bundle_path_summary", "path", "loader_indexing_path", "import_graph_nodes_save_path", "import_deps_save_path"):
+                base = getattr(sub, attr, None)
+                if isinstance(base, str) and any(d == os.path.basename(base) or d.startswith(os.path.basename(base) + ".") for d in damaged):
+                    return True
+            return False
         try:
             buf = io.StringIO()
             with contextlib.redirect_stdout(buf), contextlib.redirect_stderr(buf):
@@ -294,6 +319,9 @@ def install(M, knobs, report):
                 continue
             sub = getattr(fresh, name, None)
             if sub is None:
+                continue
+            if at_risk(sub):
+                bump("c15_restore_skipped_at_risk")
                 continue
             bump("c15_restore_checked")
             try:
@@ -338,7 +366,7 @@ def install(M, knobs, report):
             if isinstance(sub, L.GeneralLoader) or not name.startswith("_") or not hasattr(sub, "restore") or not hasattr(sub, "export"):
                 continue
             fs = getattr(fresh, name, None)
-            if fs is None:
+            if fs is None or at_risk(sub):
                 continue
             for attr, val in sorted(vars(sub).items()):
                 if attr in skip or attr.endswith("_path") or callable(val):
@@ -391,7 +419,9 @@ def gen_invivo_ops(rng, n_modules=None, size=None):
                 "caps": {"LRU_CACHE_CAPACITY": rng.choice([1, 2, 3, 20]), "BUNDLE_CACHE_CAPACITY": rng.choice([1, 2]),
                          "GIR_CACHE_CAPACITY": rng.choice([1, 2, 1000]), "MIN_CACHE_CAPACITY": 1},
                 "sample_every": rng.choice([1, 3, 7]),
-                "xprocess_hashseed": rng.randrange(1, 2 ** 31) if rng.random() < 0.5 else 0})
+                "xprocess_hashseed": rng.randrange(1, 2 ** 31) if rng.random() < 0.5 else 0,
+                "fault": ({"kind": rng.choice(["write_enospc", "write_torn"]), "nth": rng.choice([0, 1, 2, 3, 5, 8, 13, 21, 34, 55, 89, 120]),
+                           "frac": rng.choice([0.1, 0.5, 0.9])} if rng.random() < 0.25 else None)})
     return ops
 
 
@@ -415,7 +445,7 @@ def run_ops(ops, timeout=240):
             with open(fp, "w", encoding="utf-8") as f:
                 f.write(op["content"])
         knobs = {"max_rows": run.get("max_rows", 400000), "caps": run.get("caps", {}), "sample_every": run.get("sample_every", 7),
-                 "xprocess_hashseed": run.get("xprocess_hashseed", 0)}
+                 "xprocess_hashseed": run.get("xprocess_hashseed", 0) if not run.get("fault") else 0, "fault": run.get("fault")}
         argv = lianrun.build_argv({"sub": run.get("sub", "run"), "lang": "python", "force": True, "workspace": os.path.join(B, "ws"),
                                    "inputs": [proj], "flags": run.get("flags", [])}, ctx["settings"])
 
@@ -430,6 +460,10 @@ def run_ops(ops, timeout=240):
                                  env={"HOME": home, "MPLCONFIGDIR": os.path.join(home, "mpl")})
         rep = out.pop("report", None) or {}
         out["detail"] = (out.get("detail") or "").replace(B, "<B>")
+        try:
+            out["stdio"] = open(os.path.join(B, "stdio.txt"), errors="replace").read().replace(B, "<B>")[-4000:]
+        except OSError:
+            out["stdio"] = ""
         return out, rep
     finally:
         shutil.rmtree(B, ignore_errors=True)
